@@ -142,7 +142,9 @@ def static_part(ctx):
                 ctx.count(("producer", s["file"], s["line"], a["text"]), nontrivial=True, kind="producer/" + a["producer"].split(":")[0])
     ctx.cov["producers"] = prods
     for s in tab["sites"]:
-        ctx.count(("site", s["file"], s["line"]), nontrivial=True, kind="site/" + s["level"])
+        ctx.count(("site", s["file"], s["line"], s["method"]), nontrivial=True, kind="site/" + s["level"])
+        if s["method"] in ("errtext", "panic"):
+            ctx.count(("sink", s["file"], s["line"]), nontrivial=True, kind="site/record-sink" if s["method"] == "errtext" else "site/panic")
     # the sanitiser's shape: the model is written for exactly these cases
     want = {
         "cmd/application/conns.go": ["closed-class => errConnClosed", "ECONNRESET", "ECONNREFUSED", "ECONNABORTED", "EHOSTUNREACH",
@@ -703,10 +705,9 @@ def run(ctx):
                        "family/v4", "family/v6", "family/v4mapped", "site/Error", "site/Info", "site/Print", "site/Debug", "site/Warn",
                        "producer/conn", "producer/syscall", "producer/accept", "producer/geoip", "producer/reviewed",
                        "real/direct/closed", "real/direct/emfile", "real/direct/none", "real/direct_tcp/tcp_closed",
-                       "real-outcome/call-failed/closed", "real-outcome/call-failed/emfile", "real-corr/producer"] +
+                       "real-outcome/call-failed/closed", "real-outcome/call-failed/emfile", "site/record-sink"] +
                       (["real/accept/emfile", "real/accept/rst", "real/accept/relay_rst", "real/accept/relay_fin", "real/accept/junk_rst",
-                        "real-outcome/closed-at-once", "real-outcome/relayed", "real-outcome/accepted", "real-corr/discard", "real-corr/relay",
-                        "real-mode/netns-redirect"] if netns_possible() else []))
+                        "real-outcome/relayed", "real-outcome/accepted", "real-mode/netns-redirect"] if netns_possible() else []))
     mm = ctx.coq_mismatches("log", HEADER, terms, "chk", shard=500, need_vo=["C17/Run.vo"])
     if mm:
         ctx.cov["mismatches"] += len(mm)
